@@ -17,7 +17,7 @@ def check(run, tier):
     q = tier == "quick"
     run.mc("MC_Evo")
     r = rng("C13")
-    progs = evo.targeted_programs()
+    progs = evo.targeted_programs() + evo.rounding_programs()
     for i in range(150 if q else 4000):
         progs.append(evo.evo_program(r, f"C13/r{i}", r.randint(2, 8)))
     run_programs(run, progs)
